@@ -167,6 +167,10 @@ func (m *Machine) stmt(fr *frame, s ast.Stmt) {
 		}
 		c := m.expr(fr, s.Cond)
 		if c.k != vBool {
+			// a branch on an untracked condition is harmless if neither arm can affect what is tracked
+			if m.inert(fr, s.Body) && (s.Else == nil || m.inert(fr, s.Else)) {
+				return
+			}
 			m.problem("branch on unknown condition %s", types.ExprString(s.Cond))
 			fr.done = true
 			return
@@ -594,4 +598,41 @@ func (m *Machine) invoke(fr *frame, fn *types.Func, call *ast.CallExpr, args []v
 		}
 	}
 	return val{}
+}
+
+// inert: the statement contains no return/branch, no assignment to a tracked field or to a local,
+// and no call of a method of the tracked object or of an interpreted repository function.
+func (m *Machine) inert(fr *frame, n ast.Node) bool {
+	ok := true
+	ast.Inspect(n, func(x ast.Node) bool {
+		switch t := x.(type) {
+		case *ast.ReturnStmt, *ast.BranchStmt, *ast.GoStmt, *ast.DeferStmt:
+			ok = false
+		case *ast.AssignStmt:
+			for _, l := range t.Lhs {
+				if _, isId := l.(*ast.Ident); isId {
+					ok = false
+				}
+				if f, isF := m.fieldOfObj(fr, l); isF && m.tracked(f) {
+					ok = false
+				}
+			}
+		case *ast.IncDecStmt:
+			ok = false
+		case *ast.CallExpr:
+			if f, isF := m.fieldOfObj(fr, t.Fun); isF && m.tracked(f) {
+				ok = false
+			}
+			if fn := calleeOf(m.info, t); fn != nil {
+				if sig, _ := fn.Type().(*types.Signature); sig != nil && sig.Recv() != nil && m.objType != nil && types.Identical(sig.Recv().Type(), m.objType) {
+					ok = false
+				}
+				if m.funcDecl != nil && m.funcDecl(fn) != nil {
+					ok = false
+				}
+			}
+		}
+		return ok
+	})
+	return ok
 }
